@@ -331,8 +331,7 @@ def h_update(env, kind, cfg, patts, canary=False):
         final = list(th[-1])
         if canary:
             # wrong spec: "the circuit equals a fresh circuit built at a sign-flipped vector"
-            j = next(i for i, ch in enumerate(patts[-1]) if ch != "0")
-            final[j] = -final[j]
+            final = [-x for x in final]
         Fr = make(kind, cfg)
         if not guarded(env, f"{kind}: build_circuit of a fresh ansatz at {_zdesc(patts[-1])}", lambda: Fr.build_circuit(final)):
             return
@@ -366,7 +365,7 @@ def h_adapt(env, mapping, utd, picks, patts, rebuild=False, canary=False):
             A.build_circuit(list(last))
         final = list(last)
         if canary:
-            final[0] = -final[0]
+            final = [-x for x in final]
         Fr = ADAPTAnsatz(4, 2, 0, dict(opts, operators=[copy.deepcopy(pool[pk]) for pk in picks]))
         Fr.build_circuit(final)
     env.check_same(A.n_var_params, Fr.n_var_params, "adapt: n_var_params equals that of the fresh ansatz")
